@@ -6,6 +6,7 @@ import (
 	"bytes"
 	"fmt"
 	"io"
+	"sort"
 	"strings"
 	"testing"
 	"testing/iotest"
@@ -266,10 +267,18 @@ func TestC19_P_FixtureGenerators(t *testing.T) {
 				if k > 1 {
 					k = rapid.IntRange(1, len(kids)).Draw(t, "prefix")
 				}
+				if rapid.Bool().Draw(t, "kidsAlreadySorted") {
+					sort.Slice(kids, func(i, j int) bool { return kids[i].Path < kids[j].Path })
+					opt += " sorted"
+				}
 				de = testutil.BuildDirectory(rec, ls, kids[:k], sharded)
 				if k < len(kids) {
 					_ = testutil.BuildDirectory(rec, ls, kids, sharded)
 					opt += fmt.Sprintf(" prefix=%d/%d", k, len(kids))
+				}
+				// the slice is the caller's: it is refilled for the next directory right away
+				for i := range kids {
+					kids[i] = testutil.DirEntry{Path: fmt.Sprintf("/refilled-%d", i)}
 				}
 			case "WrapContent":
 				exclusive := rapid.Bool().Draw(t, "exclusive")
